@@ -1,4 +1,4 @@
-import SA.Model.Accept
+import SA.Model.AcceptTimed
 namespace SA.Drv.Accept
-def entries : List (String × (List String → String)) := [("hol", SA.Accept.handleHol), ("stall", SA.Accept.handleStall), ("xtalk", SA.Accept.handleXtalk), ("isolate", SA.Accept.handleIsolate), ("recon", SA.Accept.handleRecon)]
+def entries : List (String × (List String → String)) := [("hol", SA.Accept.handleHol), ("stall", SA.Accept.handleStallT), ("xtalk", SA.Accept.handleXtalk), ("isolate", SA.Accept.handleIsolate), ("recon", SA.Accept.handleRecon)]
 end SA.Drv.Accept
